@@ -38,6 +38,7 @@ def pOp : P Op := do
     | _ => failure
   | "acr" => do let v ← optOf bool; pure (.setAcr v)
   | "gcs" => pure .getCellSize
+  | "gcsr" => do let p ← nat; let w ← pWin; pure (.getCellSizeR p w)
   | "gcr" => pure .getCellRatio
   | "gco" => do
     let k ← word
